@@ -26,7 +26,28 @@ def oracle(req, impl, build):
     return O.multi_oracle(req, impl)
 
 
+def huge(binary, build):
+    """a collection of more than 2^32 items (release build; 4 s): under exact uniformity the chance that two or more of the kept items come from
+    the last 8 positions is below 1e-16 - a 32-bit item counter or index makes exactly that happen"""
+    n, k = (1 << 32) + 4, 4
+    q = "bigmulti n=%d k=%d seed=77 gen=wyrand" % (n, k)
+    o = C.run_parallel(binary, [q])[0]
+    f = o.split(":")
+    if f[0] != "ok" or len(f) < 3:
+        yield {"kind": "oracle", "build": build, "request": q, "impl": o, "model": "", "oracle": "multiple() over 2^32 + 4 items failed: " + o}
+    else:
+        items = [int(x) for x in f[2].split(",") if x]
+        late = [x for x in items if x >= n - 8]
+        if int(f[1]) != k or len(set(items)) != k or any(x >= n for x in items):
+            yield {"kind": "oracle", "build": build, "request": q, "impl": o, "model": "", "oracle": "multiple() over 2^32 + 4 items into 4 slots: wrong count, a duplicate or an item that is not in the collection"}
+        elif len(late) >= 2:
+            yield {"kind": "oracle", "build": build, "request": q, "impl": o, "model": "", "oracle": "multiple() over 2^32 + 4 items into 4 slots kept %d items from the last 8 positions (%s): under exact uniformity that has probability below 1e-16" % (len(late), late)}
+    yield {"kind": "count", "what": "huge-collection-items", "n": n}
+
+
 def extra(binary, build, tier, rng):
+    if build == "release":
+        yield from huge(binary, build)
     if build != "dev" and tier == "quick":
         return          # the exhaustive / statistical searches run once per quick check (dev profile)
     from .enum_oracle import run_enum
